@@ -784,6 +784,19 @@ def _is_control(eng, t, a, fr, dt):
     return z3.Or(z3.ULT(c.v, 32), z3.And(z3.UGE(c.v, 127), z3.ULT(c.v, 160)))
 
 
+@reg('char::is_numeric', 'char::is_alphabetic', 'char::is_alphanumeric', 'char::is_whitespace', 'char::is_uppercase',
+     'char::is_lowercase')
+def _char_unicode_class(eng, t, a, fr, dt):
+    # decided from std's own tables, dumped by mt-replay
+    from . import tables
+    c = deref_all(a[0])
+    name = t.key.split('::')[-1]
+    r = tables.char_class(name, c.v)
+    if r is None:
+        raise Unmodelled('no table for char::%s' % name)
+    return r
+
+
 @reg('char::from_u32')
 def _from_u32(eng, t, a, fr, dt):
     x = a[0]
